@@ -1,10 +1,11 @@
 #!/bin/bash
 # Builds /repo WITHOUT the verification guard in a scratch directory and runs the 20-test suite.
 set -e
+REPO=${VERIF_REPO:-/repo}
 D=$(mktemp -d /var/tmp/verif-baseline-XXXXXX)
 trap 'rm -rf "$D"' EXIT
 GEN=""
 command -v ninja >/dev/null 2>&1 && GEN="-G Ninja"
-cmake $GEN -S /repo -B "$D" -DCMAKE_BUILD_TYPE=RelWithDebInfo -DCMAKE_CXX_FLAGS=-Wno-error >"$D/cmake.log" 2>&1 || { cat "$D/cmake.log"; exit 2; }
+cmake $GEN -S "$REPO" -B "$D" -DCMAKE_BUILD_TYPE=RelWithDebInfo -DCMAKE_CXX_FLAGS=-Wno-error >"$D/cmake.log" 2>&1 || { cat "$D/cmake.log"; exit 2; }
 cmake --build "$D" -j16 >"$D/build.log" 2>&1 || { tail -50 "$D/build.log"; exit 2; }
 ctest --test-dir "$D" -j8 --timeout 900
